@@ -164,7 +164,7 @@ var reLitName = regexp.MustCompile(`lit_[0-9a-f]{12}`)
 func (e *Engine) buildPrelude(solver string, body string) string {
 	var sb strings.Builder
 	switch solver {
-	case "z3", "z3-new", "z3-new-retry":
+	case "z3", "z3-new", "z3-new-retry", "z3-new-p1", "z3-new-p2", "z3-new-p3":
 		sb.WriteString("(set-option :smt.mbqi false)\n(set-option :smt.auto_config false)\n")
 	case "z3-mbqi":
 	case "cvc5":
@@ -340,13 +340,18 @@ type solverResult struct {
 }
 
 func runSolver(solver, file string, timeout time.Duration) solverResult {
+	return runSolverCtx(context.Background(), solver, file, timeout)
+}
+
+// runSolverCtx: as runSolver; cancelling parent kills the solver (used when another member of a portfolio has answered).
+func runSolverCtx(parent context.Context, solver, file string, timeout time.Duration) solverResult {
 	var cmd *exec.Cmd
-	ctx, cancel := context.WithTimeout(context.Background(), timeout+2*time.Second)
+	ctx, cancel := context.WithTimeout(parent, timeout+2*time.Second)
 	defer cancel()
 	switch solver {
 	case "z3":
 		cmd = exec.CommandContext(ctx, "z3", fmt.Sprintf("-T:%d", int(timeout.Seconds())+1), file)
-	case "z3-new", "z3-mbqi", "z3-new-retry":
+	case "z3-new", "z3-mbqi", "z3-new-retry", "z3-new-p1", "z3-new-p2", "z3-new-p3":
 		cmd = exec.CommandContext(ctx, "z3-new", fmt.Sprintf("-T:%d", int(timeout.Seconds())+1), file)
 	case "cvc5":
 		cmd = exec.CommandContext(ctx, "cvc5", "--incremental", fmt.Sprintf("--tlimit=%d", timeout.Milliseconds()), file)
